@@ -1,7 +1,8 @@
 -------------------------------- MODULE Lease --------------------------------
 (* RFC 2131 section 3.1 / 4.3-4.4 and RFC 8415 section 18: the lease exchanges  *)
 (* of nclient4 (DISCOVER/OFFER, REQUEST/ACK|NAK, renew, release) and nclient6    *)
-(* (SOLICIT/ADVERTISE, REQUEST/REPLY, rapid commit) on top of the SendAndRead    *)
+(* (SOLICIT/ADVERTISE, REQUEST/REPLY, rapid commit), and the INFORM/ACK exchange  *)
+(* of nclient4, on top of the SendAndRead                                         *)
 (* contract established by Client.tla ("first datagram, in arrival order, that   *)
 (* passes the transaction filter and the matcher, else no-response after the    *)
 (* last try").  The environment is adversarial: after every transmission of the *)
@@ -11,7 +12,8 @@ EXTENDS Integers, Sequences, FiniteSets, TLC
 CONSTANTS Proto,       \* 4 or 6
           Tries,       \* transmissions per SendAndRead
           MaxReplies,  \* replies per transmission
-          Rapid        \* DHCPv6: RapidSolicit
+          Rapid,       \* DHCPv6: RapidSolicit
+          Inform       \* DHCPv4: the one-exchange INFORM / ACK (RFC 2131 3.4) instead of the lease exchange
 
 \* a reply: [t |-> type, sid |-> server id ("A", "B", "none", "AA": A's identifier followed by four more octets), ok |-> passes the transaction filter
 \*           (decodable, right transaction id, BOOTREPLY for the client's hardware address), a |-> offered address]
@@ -46,7 +48,7 @@ Init == /\ phase = "first" /\ try = 1 /\ txs = <<"first">> /\ inbox = <<>> /\ of
 \* value reads as absent)
 Eff(sid) == IF sid = "AA" THEN "none" ELSE sid
 \* matchers of the two exchanges
-AcceptFirst(r) == r.ok /\ (IF Proto = 4 THEN r.t = "offer"
+AcceptFirst(r) == r.ok /\ (IF Proto = 4 THEN (IF Inform THEN r.t = "ack" ELSE r.t = "offer")     \* INFORM: any server's ACK
                            ELSE IF Rapid THEN r.t \in {"advertise", "reply"} ELSE r.t = "advertise")
 AcceptSecond(r) == r.ok /\ (IF Proto = 4 THEN r.t \in {"ack", "nak"} /\ Eff(r.sid) = Eff(offer[1].sid)    \* that server's ACK or NAK
                             ELSE TRUE)                                                           \* DHCPv6: paired by transaction id only
@@ -55,8 +57,8 @@ Deliver(r) ==
     /\ phase # "done" /\ Len(inbox) < MaxReplies
     /\ LET h1 == [hist EXCEPT ![Len(hist)] = Append(@, r)] IN
        IF phase = "first" /\ AcceptFirst(r)
-       THEN IF Proto = 6 /\ r.t = "reply"                     \* rapid commit: the REPLY completes the exchange
-            THEN /\ phase' = "done" /\ result' = "lease" /\ offer' = <<>> /\ final' = <<r>> /\ hist' = h1
+       THEN IF (Proto = 6 /\ r.t = "reply") \/ (Proto = 4 /\ Inform)   \* rapid commit: the REPLY completes the exchange; so does the ACK of an INFORM
+            THEN /\ phase' = "done" /\ result' = (IF Inform THEN "ack" ELSE "lease") /\ offer' = <<>> /\ final' = <<r>> /\ hist' = h1
                  /\ fi' = CountAll(h1) /\ oi' = oi
                  /\ inbox' = Append(inbox, r) /\ UNCHANGED <<try, txs>>
             ELSE /\ offer' = <<r>> /\ phase' = "second" /\ try' = 1 /\ inbox' = <<>>
@@ -85,6 +87,10 @@ Spec == Init /\ [][Next]_vars
 \* a lease is made of the accepted offer and an ACK bearing that offer's server identifier
 LeaseRule == (Proto = 4 /\ result = "lease") => offer # <<>> /\ final[1].t = "ack" /\ Eff(final[1].sid) = Eff(offer[1].sid) /\ final[1].ok
 NakRule == result = "nak" => final[1].t = "nak" /\ Eff(final[1].sid) = Eff(offer[1].sid)
+\* an INFORM is answered by an ACK that passes the transaction filter, whoever sent it; no REQUEST follows
+InformRule == (Proto = 4 /\ Inform) => /\ \A i \in DOMAIN txs : txs[i] = "first"
+                                        /\ result \in {"none", "noresp", "ack"}
+                                        /\ (result = "ack" => final[1].t = "ack" /\ final[1].ok /\ offer = <<>>)
 \* the REQUEST is only sent for an accepted offer, at most Tries times per exchange
 RequestRule == /\ (\E i \in DOMAIN txs : txs[i] = "second") => offer # <<>>
                /\ Cardinality({i \in DOMAIN txs : txs[i] = "second"}) <= Tries
